@@ -630,6 +630,8 @@ static void lay_printf(const char *fmt, ...)
 }
 #define LAYOUT_EMIT(T, f, size, off) lay_printf("F %s|%s|%zu|%zu\n", T, f, (size_t)(size), (size_t)(off))
 #define CONST_EMIT(name, v) lay_printf("C %s|%lld\n", name, (long long)(v))
+#define TYPE_EMIT(T, f, ty) lay_printf("T %s|%s|%s\n", T, f, ty)
+#define MAPTYPE_EMIT(m, k, v, t) lay_printf("M %s|%s|%s|%s\n", m, k, v, t)
 #include "layout_gen.h"
 
 // ---------------------------------------------------------------------------
